@@ -888,6 +888,7 @@ def expand_augassign(modules, known, rep):
 
 
 # ---------------------------------------------------------------------------------------------- N23 None sentinels
+_CLASS_NAMES: set = set()
 _NEVER_NONE_CALLS = {"int", "str", "float", "len", "bool", "bytes", "list", "dict", "set", "tuple", "repr", "abs", "sum", "frozenset", "sorted"}
 
 
@@ -897,8 +898,8 @@ def _never_none(e) -> bool:
     if isinstance(e, (ast.BinOp, ast.UnaryOp, ast.Compare, ast.JoinedStr, ast.List, ast.Tuple, ast.Dict, ast.Set, ast.ListComp, ast.DictComp,
                       ast.SetComp, ast.Lambda)):
         return True
-    if isinstance(e, ast.Call) and isinstance(e.func, ast.Name) and e.func.id in _NEVER_NONE_CALLS:
-        return True
+    if isinstance(e, ast.Call) and isinstance(e.func, ast.Name) and (e.func.id in _NEVER_NONE_CALLS or e.func.id in _CLASS_NAMES):
+        return True  # a builtin conversion, or the construction of an instance of one of the package's classes
     return False
 
 
@@ -911,6 +912,11 @@ def thread_none_sentinels(modules, known, rep):
         else: t = int(m[k])            =>       else: t = int(m[k])
         if t is None: return 0
     """
+    _CLASS_NAMES.clear()
+    for mod in modules.values():
+        for c in mod.tree.body:
+            if isinstance(c, ast.ClassDef) and not any(isinstance(m, FUNC) and m.name == "__new__" for m in c.body):
+                _CLASS_NAMES.add(c.name)
     for rel, sc, fn in all_functions(modules):
         kh = _known_hashes(known, rel, sc, fn)
         if kh is None:
